@@ -157,6 +157,9 @@ func TestAHTModel(t *testing.T) {
 		resets, reopens, reappendAfterReset := 0, 0, 0
 		pendingReset := false
 		highWater := 0 // largest size ever reached: what the never-truncated files still hold
+		syncedSize := 0 // size at the last explicit Sync / clean reopen: must survive a process kill
+		kills := 0
+		dirtyReset := false // a ResetSize happened since the files were last known to hold no dropped entries
 
 		checkAll := func(full bool) {
 			n := uint64(len(payloads))
@@ -263,8 +266,12 @@ func TestAHTModel(t *testing.T) {
 				if m < len(payloads) {
 					resets++
 					pendingReset = true
+					dirtyReset = true
 				}
 				payloads, leaves = payloads[:m], leaves[:m]
+				if syncedSize > m {
+					syncedSize = m
+				}
 				c.Descf("R%d", m)
 			},
 			"resetLarger": func(rt *rapid.T) {
@@ -276,6 +283,7 @@ func TestAHTModel(t *testing.T) {
 				if err := tree.Sync(); err != nil {
 					c.Failf(rt, nil, "Sync: %v", err)
 				}
+				syncedSize = len(payloads)
 				c.Descf("S")
 			},
 			"reopen": func(rt *rapid.T) {
@@ -310,11 +318,58 @@ func TestAHTModel(t *testing.T) {
 					c.Failf(rt, nil, "reopen: %v", err)
 				}
 				reopens++
+				dirtyReset = false
+				syncedSize = len(payloads)
 				c.Descf("O")
 				checkAll(len(payloads) <= 40)
 			},
+			"killReopen": func(rt *rapid.T) {
+				// process kill: the directory as it is on disk right now (whatever the appendables flushed by
+				// themselves) is what the next process finds; the recovered tree must be a prefix of the model that
+				// contains everything explicitly synced, and must keep working
+				if dirtyReset && vk.Excluded("K3b-aht-reset-not-persisted") {
+					// K3b: after a ResetSize the files may still hold the dropped entries until a clean
+					// close/reopen cycle (which the generator only performs once the tree has grown back)
+					vk.CountExcluded("K3b-aht-reset-not-persisted")
+					rt.Skip("K3b")
+				}
+				// unsynced appends right before the kill (the invariant run after every step reads the last
+				// payload, which makes the tree sync: without this the kill would always find a synced tree)
+				for q := rapid.IntRange(0, 9).Draw(rt, "unsyncedAppends"); q > 0 && len(payloads) < maxSize; q-- {
+					ctr++
+					d := []byte{byte(ctr), byte(ctr >> 8), byte(ctr >> 16), 0xC3, byte(q)}
+					if _, _, err := tree.Append(d); err != nil {
+						c.Failf(rt, nil, "Append: %v", err)
+					}
+					payloads = append(payloads, d)
+					leaves = append(leaves, leafOf(d))
+				}
+				dir2 := vk.Dir()
+				if err := copyDir(dir, dir2); err != nil {
+					rt.Fatalf("harness: copy: %v", err)
+				}
+				tree.Close()
+				removeAll(dir)
+				dir = dir2
+				var err error
+				tree, err = ahtree.Open(dir, cfg.opts())
+				if err != nil {
+					c.Failf(rt, nil, "open after process kill: %v", err)
+				}
+				sz := int(tree.Size())
+				if sz > len(payloads) || sz < syncedSize {
+					c.Failf(rt, nil, "after process kill the tree has %d leaves; model has %d of which %d were explicitly synced", sz, len(payloads), syncedSize)
+				}
+				payloads, leaves = payloads[:sz], leaves[:sz]
+				highWater = sz
+				pendingReset = false
+				kills++
+				c.Descf("X%d", sz)
+				checkAll(sz <= 40)
+			},
 			"": func(rt *rapid.T) { checkAll(false) },
 		})
+		defer removeAll(dir)
 		checkAll(len(payloads) <= 64)
 		n := len(payloads)
 		c.Descf("n=%d", n)
@@ -323,6 +378,9 @@ func TestAHTModel(t *testing.T) {
 		}
 		if reopens > 0 {
 			c.Label("reopen")
+		}
+		if kills > 0 {
+			c.Label("process-kill-reopen")
 		}
 		if reappendAfterReset > 0 {
 			c.Label("reappend-after-reset")
